@@ -50,7 +50,17 @@ def _xml(name: str, version='1.3') -> Path:
     p = d / f'{name}-{version}.xml'
     if not p.exists():
         # (a resource may fix its own format version, e.g. Rf10)
-        p.write_text(lmfgen.to_xml(universe.resource(name, version)), encoding='utf-8')
+        text = lmfgen.to_xml(universe.resource(name, version))
+        # lexicon u carries a comment over several lines that mentions an <Extends> element:
+        # comments are no content, whichever way the file is read
+        lines = text.split('\n')
+        for k, ln in enumerate(lines):
+            if ln.lstrip().startswith('<Lexicon id="u"'):
+                lines[k + 1:k + 1] = ['    <!-- an earlier release was an extension:',
+                                      '         <Extends id="a" version="1"/>',
+                                      '    -->']
+                break
+        p.write_text('\n'.join(lines), encoding='utf-8')
     return p
 
 
